@@ -99,8 +99,13 @@ func (self *Compiler) Compile() (CompileOutput, error) {
 	functions := make(map[string][]Instruction)
 	sourceMap := make(map[string][]errors.Span)
 
-	for _, module := range self.modules {
-		for _, fn := range module {
+	// Collect in the order of the names: mangled function names are not unique (`@a_b_c` is
+	// function `b_c` of module `a` and function `c` of module `a_b`), so map iteration order would
+	// decide which body survives.
+	for _, moduleName := range sortedKeys(self.modules) {
+		module := self.modules[moduleName]
+		for _, name := range sortedKeys(module) {
+			fn := module[name]
 			functions[fn.MangledName] = fn.Instructions
 			sourceMap[fn.MangledName] = fn.SourceMap
 		}
